@@ -237,7 +237,22 @@ class Ctx:
 
     # ----------------------------------------------------------------- proofs
     def lean_build(self, targets, timeout=3000):
-        """lake build under a lock.  Returns True when every target builds."""
+        """lake build under a lock.  Returns True when every target builds.
+        Third tie to the source (besides constants and differential execution): the small pure C functions whose
+        model definitions this property uses are RE-TRANSLATED from the tree under check (tools/c2lean.py ->
+        Gen/Fn<Unit>.lean) and their bridge theorems (generated function = hand-written model definition, for all
+        arguments) are rebuilt with the property's theorems; a behavioural edit of such a function breaks a bridge."""
+        targets = list(targets)
+        try:
+            from vlib import c2lean
+            units = c2lean.units_for(self.prop)
+            if units and not getattr(self, "_bridged", False):
+                self._bridged = True
+                self.bridge_units = units
+                c2lean.regen(self, units)
+                targets += [t for t in c2lean.bridge_targets(units) if t not in targets]
+        except Exception as e:      # the translator itself failing is a broken tie, not a pass
+            self.broken.append(("P-BROKEN", "c2lean", "translator failed: %r" % (e,)))
         with open(os.path.join(LEAN_DIR, ".lock"), "w") as lk:
             fcntl.flock(lk, fcntl.LOCK_EX)
             p = run(["lake", "build"] + list(targets), cwd=LEAN_DIR, timeout=timeout)
@@ -284,6 +299,23 @@ class Ctx:
         if not names:
             self.broken.append(("P-BROKEN", props_module, "no theorems found"))
             return
+        extra_modules = list(extra_modules)
+        for u in getattr(self, "bridge_units", []):
+            # bridge theorems of the units this property's model uses (Bridge/<Unit>.lean)
+            bm = "PdshVerif.Bridge." + u
+            try:
+                bn = self.props_theorems(bm)
+            except OSError:
+                bn = []
+            if not os.path.exists(os.path.join(LEAN_DIR, ".lake", "build", "lib", "lean", "PdshVerif", "Bridge", u + ".olean")):
+                # the bridge no longer builds against the re-translated source (already recorded by lean_build):
+                # its theorems are undischarged obligations; do not import the module (the audit file would not load)
+                for n in bn:
+                    self.obligations.append((n, False))
+                continue
+            names += [n for n in bn if n not in names]
+            if bm not in extra_modules:
+                extra_modules.append(bm)
         audit_file = os.path.join(self.scratch, "Audit.lean")
         with open(audit_file, "w") as f:
             f.write("import %s\n" % props_module)
